@@ -37,7 +37,22 @@ EXTREMES = [-1, 0, 1, 2 ** 31 - 1, 2 ** 31, 2 ** 32 - 1, 2 ** 32, 2 ** 63 - 1, 2
 
 def plan(tier, seed):
     n, seqs = (6, 3) if tier == "quick" else (16, 8)
-    return [{"backend": b, "case_seed": seed * 7919 + i, "seqs": seqs} for b in ("sql", "lmdb") for i in range(n)]
+    out = [{"backend": b, "case_seed": seed * 7919 + i, "seqs": seqs} for b in ("sql", "lmdb") for i in range(n)]
+    # systematic sweep of indexed tag value lengths around the LMDB key limit, for every indexed name
+    for b in ("sql", "lmdb"):
+        for name in ("t", "expiration", "delegation", "é"):
+            out.append({"backend": b, "case_seed": seed, "sweep": name})
+    return out
+
+
+def sweep_sequence(name):
+    key = ref.key_from_seed("c06-sweep")
+    steps = []
+    lengths = list(range(250, 262)) + list(range(440, 520)) + [1000]
+    for i, n in enumerate(lengths):
+        ev = ref.make_event(key, kind=1, created_at=gen.T0 + i, tags=[[name, "s" * n]], content=subm.token("sw"))
+        steps.append({"cls": "big/key-limit-sweep/%s" % name, "raw": ev})
+    return steps
 
 
 def resign(ev, key):
@@ -299,7 +314,13 @@ def run_shard(spec):
     viols, nontrivial, samples = [], [], []
     r = random.Random(spec["case_seed"])
     classes = {}
-    for s in range(spec["seqs"]):
+    if spec.get("sweep"):
+        steps = sweep_sequence(spec["sweep"])
+        v, nt, sm = R.run(run_sequence, spec["backend"], steps, counters, 0)
+        viols.extend(v)
+        nontrivial.extend(h([spec["backend"], "sweep", spec["sweep"], i]) for i in range(len(steps)))
+        classes["key-limit-sweep"] = len(steps)
+    for s in range(spec.get("seqs", 0)):
         seq_seed = spec["case_seed"] * 131 + s
         steps = gen_sequence(seq_seed, r.randint(25, 50))
         for st in steps:
